@@ -40,11 +40,14 @@ func (ce *CEnv) fieldOfSelf(name string) (Val, bool) {
 }
 
 // externContract finds an `extern func` contract for a function outside the repository.
-func (e *Engine) externContract(obj *types.Func) *FuncContract {
-	if obj == nil || obj.Pkg() == nil {
+// Extern contracts are assumptions of the package whose contract file states them: they apply only while verifying
+// functions and lemmas of that package.
+func (fv *FnVerifier) externContract(obj *types.Func) *FuncContract {
+	e := fv.eng
+	if obj == nil || obj.Pkg() == nil || fv.fc == nil {
 		return nil
 	}
-	key := "extern#" + obj.Pkg().Name() + "."
+	key := "extern#" + fv.fc.PkgPath + "#" + obj.Pkg().Name() + "."
 	if sig, ok := obj.Type().(*types.Signature); ok && sig.Recv() != nil {
 		if n, ok := derefNamed(sig.Recv().Type()); ok {
 			key += n.Obj().Name() + "."
